@@ -1,7 +1,14 @@
 (* C17: v4 time and frequency axes; preselection vs selection.
-   Model of visdatav4.py (timestamps, SR-1625 one-CBF-dump fix, start/end time, spectral window creation
-   with preselect), datasources.py (timestamp synthesis, preselect validation) and spectral_window.py
-   (channel_freqs, subrange, rechannelise).  All quantities are exact rationals. *)
+   MODEL: what the katdal code does.  Every expression, sign, statement order and constant below that the katdal
+   source determines comes from Gen/Generated.v (harness/vh/items/c17.py re-translates it on every run):
+     datasources.py  TelstateDataSource.__init__  gen_ds_prog, gen_ds_t0, gen_ds_timestamp, preselect_keys/steps
+     visdatav4.py    VisibilityDataV4.__init__    fix_rule, gen_v4_time_prog, gen_v4_half_dump, gen_v4_channel_width,
+                                                  gen_v4_sideband
+     spectral_window.py SpectralWindow            gen_spw_init_*, gen_spw_channel_freq, gen_spw_subrange,
+                                                  gen_spw_rechannelise
+   The generated code is abstract in its number type; here it is run over exact rationals.
+   SPEC: the documented formulas, written by hand and independent of Generated.v (raw_stamp, doc_fix_date,
+   spec_timestamp, spec_chan_freq). *)
 From Coq Require Import ZArith QArith List Bool String.
 From KV Require Import Base.Sx Base.Str Gen.Generated.
 Import ListNotations.
@@ -9,36 +16,90 @@ Open Scope Q_scope.
 
 Definition Qltb (x y : Q) : bool := negb (Qle_bool y x).
 
+(* ---- the generated code over Q ---- *)
+Definition q_ds_t0 := @gen_ds_t0 Q Qplus Qminus Qmult Qdiv inject_Z.
+Definition q_ds_timestamp := @gen_ds_timestamp Q Qplus Qminus Qmult Qdiv inject_Z.
+Definition q_half_dump := @gen_v4_half_dump Q Qplus Qminus Qmult Qdiv inject_Z.
+Definition q_v4_channel_width := @gen_v4_channel_width Q Qplus Qminus Qmult Qdiv inject_Z.
+Definition q_init_bandwidth := @gen_spw_init_bandwidth Q Qplus Qminus Qmult Qdiv inject_Z.
+Definition q_init_width := @gen_spw_init_width Q Qplus Qminus Qmult Qdiv inject_Z.
+Definition q_channel_freq := @gen_spw_channel_freq Q Qplus Qminus Qmult Qdiv inject_Z.
+Definition q_subrange := @gen_spw_subrange Q Qplus Qminus Qmult Qdiv inject_Z.
+Definition q_rechannelise := @gen_spw_rechannelise Q Qplus Qminus Qmult Qdiv inject_Z.
+
 (* ---------------- timestamps ---------------- *)
 Record timing := mkTiming {
   t_sync : Q; t_first : Q; t_int : Q; t_off : Q;     (* sync_time, first_timestamp, int_time, time_offset *)
   t_cbf : option Q;                                   (* CBF dump period; None for a "lite" RDB *)
   t_cmc2 : bool; t_cbf4k : bool }.
 
-(* datasources.py: timestamps = t0 + arange(n) * int_time, then [preselect dumps a:b];
-   visdatav4.py: source.timestamps += time_offset *)
+(* datasources.py: timestamps = t0 + arange(n) * int_time *)
+Definition synth (tm : timing) (k : Z) : Q := q_ds_timestamp (q_ds_t0 (t_sync tm) (t_first tm)) (t_int tm) k.
+
+(* TelstateDataSource.__init__ with preselect dumps = a:b (a = 0 when there is none), statement by statement in the
+   order of the source: the kept dumps start at capture index d_base; d_capvar is the local capture_start;
+   d_src_base / d_src_cap are what the DataSource ends up with (source.timestamps[j] = synth (base + j),
+   source.capture_start). *)
+Record dstate := mkD { d_base : Z; d_capvar : option Q; d_src_base : option Z; d_src_cap : option Q }.
+Definition ds_step (tm : timing) (a : Z) (st : dstate) (op : Z) : dstate :=
+  match op with
+  | 2%Z => mkD (d_base st) (Some (synth tm (d_base st))) (d_src_base st) (d_src_cap st)
+  | 3%Z => mkD (d_base st + a) (d_capvar st) (d_src_base st) (d_src_cap st)
+  | 4%Z => mkD (d_base st) (d_capvar st) (Some (d_base st)) (d_src_cap st)
+  | 5%Z => mkD (d_base st) (d_capvar st) (d_src_base st) (d_capvar st)
+  | _ => st
+  end.
+Definition run_ds (tm : timing) (a : Z) : dstate := fold_left (ds_step tm a) gen_ds_prog (mkD 0 None None None).
+Definition src_base (tm : timing) (a : Z) : Z := match d_src_base (run_ds tm a) with Some b => b | None => 0%Z end.
+
+(* VisibilityDataV4.__init__: the statements that touch the time axis, in source order.  source.timestamps[j] is
+   synth (base + j) + v_shift (the array is only ever shifted in place); v_off is self.time_offset; v_cap the local
+   capture_start; v_start / v_end the start_time / end_time attributes. *)
+Record vstate := mkV { v_shift : Q; v_off : Q; v_cap : option Q; v_start : option Q; v_end : option Q }.
+Definition v_fix (tm : timing) (cap : option Q) : option Q :=
+  match cap, t_cbf tm with
+  | Some c, Some p => if fix_rule (fun d => Qltb c (inject_Z d)) (t_cmc2 tm) (t_cbf4k tm) then Some p else None
+  | _, _ => None
+  end.
+Definition v_step (tm : timing) (src_cap : option Q) (ts0 tsl : Q) (st : vstate) (ins : Z * Z) : vstate :=
+  let s := inject_Z (snd ins) in
+  match fst ins with
+  | 1%Z => mkV (v_shift st + s * v_off st) (v_off st) (v_cap st) (v_start st) (v_end st)
+  | 7%Z => mkV (v_shift st) (v_off st) src_cap (v_start st) (v_end st)
+  | 2%Z => mkV (v_shift st) (v_off st)
+               (Some (match v_cap st with None => ts0 + v_shift st | Some c => c + s * v_off st end))
+               (v_start st) (v_end st)
+  | 3%Z => match v_fix tm (v_cap st) with
+           | Some p => mkV (v_shift st + s * p) (v_off st) (v_cap st) (v_start st) (v_end st)
+           | None => st end
+  | 6%Z => match v_fix tm (v_cap st) with
+           | Some p => mkV (v_shift st) (v_off st + s * p) (v_cap st) (v_start st) (v_end st)
+           | None => st end
+  | 4%Z => mkV (v_shift st) (v_off st) (v_cap st) (Some (ts0 + v_shift st + s * q_half_dump (t_int tm))) (v_end st)
+  | 5%Z => mkV (v_shift st) (v_off st) (v_cap st) (v_start st) (Some (tsl + v_shift st + s * q_half_dump (t_int tm)))
+  | _ => st
+  end.
+(* a data set of n dumps opened with preselect dumps = a:a+n *)
+Definition run_v4 (tm : timing) (a n : Z) : vstate :=
+  let b := src_base tm a in
+  fold_left (v_step tm (d_src_cap (run_ds tm a)) (synth tm b) (synth tm (b + n - 1)))
+            gen_v4_time_prog (mkV 0 (t_off tm) None None None).
+
+Definition optQ (o : option Q) : Q := match o with Some x => x | None => 0 end.
+(* timestamp of dump i of a data set opened with preselect dumps = a:a+n (a = 0 when not preselected) *)
+Definition model_timestamp (tm : timing) (a i : Z) : Q := synth tm (src_base tm a + i) + v_shift (run_v4 tm a 1).
+Definition model_start_time (tm : timing) (a n : Z) : Q := optQ (v_start (run_v4 tm a n)).
+Definition model_end_time (tm : timing) (a n : Z) : Q := optQ (v_end (run_v4 tm a n)).
+(* effective time_offset attribute after the workaround *)
+Definition model_time_offset (tm : timing) (a : Z) : Q := v_off (run_v4 tm a 1).
+
+(* the decision as it was before the repair of F21 (first PRESELECTED timestamp), kept for the record *)
 Definition raw_stamp (tm : timing) (k : Z) : Q :=
   t_sync tm + t_first tm + inject_Z k * t_int tm + t_off tm.
-
-(* visdatav4.py (after the repair of F21): _before(date) looks at capture_start = first timestamp of the CAPTURE
-   (recorded by TelstateDataSource before the dump preselection) + time_offset, whatever dumps are preselected.
-   [needs_fix_pre] is the decision as it was before the repair (first PRESELECTED timestamp), kept for the record. *)
-Definition needs_fix (tm : timing) (a : Z) : bool :=
-  fix_rule (fun d => Qltb (raw_stamp tm 0) (inject_Z d)) (t_cmc2 tm) (t_cbf4k tm).
 Definition needs_fix_pre (tm : timing) (a : Z) : bool :=
   fix_rule (fun d => Qltb (raw_stamp tm a) (inject_Z d)) (t_cmc2 tm) (t_cbf4k tm).
 Definition model_timestamp_pre (tm : timing) (a i : Z) : Q :=
   raw_stamp tm (a + i) - (if needs_fix_pre tm a then match t_cbf tm with Some c => c | None => 0 end else 0).
-
-Definition fix_amount (tm : timing) (a : Z) : Q :=
-  if needs_fix tm a then match t_cbf tm with Some c => c | None => 0 end else 0.
-
-(* timestamp of dump i of a data set opened with preselect dumps = a:b (a = 0 when not preselected) *)
-Definition model_timestamp (tm : timing) (a i : Z) : Q := raw_stamp tm (a + i) - fix_amount tm a.
-Definition model_start_time (tm : timing) (a : Z) : Q := model_timestamp tm a 0 - (1#2) * t_int tm.
-Definition model_end_time (tm : timing) (a n : Z) : Q := model_timestamp tm a (n - 1) + (1#2) * t_int tm.
-(* effective time_offset attribute after the workaround *)
-Definition model_time_offset (tm : timing) (a : Z) : Q := t_off tm - fix_amount tm a.
 
 (* ---- SPEC (documented): captures made before the fix date of their correlator lose one CBF dump ---- *)
 Definition doc_fix_date (cmc2 cbf4k : bool) : Z :=
@@ -46,42 +107,53 @@ Definition doc_fix_date (cmc2 cbf4k : bool) : Z :=
   else 1552608000 (* 2019-03-15 *).
 Definition spec_needs_fix (tm : timing) : bool :=
   Qltb (raw_stamp tm 0) (inject_Z (doc_fix_date (t_cmc2 tm) (t_cbf4k tm))).
-Definition spec_timestamp (tm : timing) (k : Z) : Q :=
-  raw_stamp tm k - (if spec_needs_fix tm then match t_cbf tm with Some c => c | None => 0 end else 0).
+Definition spec_fix_amount (tm : timing) : Q :=
+  if spec_needs_fix tm then match t_cbf tm with Some c => c | None => 0 end else 0.
+Definition spec_timestamp (tm : timing) (k : Z) : Q := raw_stamp tm k - spec_fix_amount tm.
 
 (* ---------------- spectral windows ---------------- *)
+(* a SpectralWindow object: centre_freq, bandwidth, num_chans, sideband; its channel_width attribute is always
+   bandwidth / num_chans (TimeFreqP.init_width_consistent: that is what __init__ stores on both of its paths) *)
 Record spw := mkSpw { s_centre : Q; s_bw : Q; s_n : Z; s_side : Z }.   (* sideband = +1 / -1 *)
-
-Definition chan_freq (w : spw) (k : Z) : Q :=
-  s_centre w + inject_Z (s_side w) * s_bw w * inject_Z (k - s_n w / 2) / inject_Z (s_n w).
 Definition chan_width (w : spw) : Q := s_bw w / inject_Z (s_n w).
 
+Definition ctor_args : Type := (Q * Q * Z * Z * option Q)%type.   (* centre_freq, channel_width, num_chans, sideband, bandwidth= *)
+Definition spw_init (r : ctor_args) : spw :=
+  let '(c, cw, n, sd, bw) := r in
+  mkSpw c (match bw with Some b => b | None => q_init_bandwidth cw n end) n sd.
+Definition init_width_attr (r : ctor_args) : Q :=
+  let '(c, cw, n, sd, bw) := r in match bw with Some b => q_init_width b n | None => cw end.
+
+Definition chan_freq (w : spw) (k : Z) : Q :=
+  q_channel_freq (s_centre w) (chan_width w) (s_bw w) (s_n w) (s_side w) k.
 Definition subrange (w : spw) (first last : Z) : option spw :=
-  if ((0 <=? first) && (first <? last) && (last <=? s_n w))%Z then
-    let shift := ((first + last) / 2 - s_n w / 2)%Z in
-    let n' := (last - first)%Z in
-    Some (mkSpw (s_centre w + inject_Z shift * s_bw w * inject_Z (s_side w) / inject_Z (s_n w))
-                (s_bw w * inject_Z n' / inject_Z (s_n w)) n' (s_side w))
-  else None.
-
+  option_map spw_init (q_subrange (s_centre w) (chan_width w) (s_bw w) (s_n w) (s_side w) first last).
 Definition rechannelise (w : spw) (m : Z) : spw :=
-  if (m =? s_n w)%Z then w else
-  let c1 := if (s_n w mod 2 =? 0)%Z then s_centre w - inject_Z (s_side w) * (1#2) * chan_width w else s_centre w in
-  let cw := s_bw w / inject_Z m in
-  let c2 := if (m mod 2 =? 0)%Z then c1 + inject_Z (s_side w) * (1#2) * cw else c1 in
-  mkSpw c2 (s_bw w) m (s_side w).
+  spw_init (q_rechannelise (s_centre w) (chan_width w) (s_bw w) (s_n w) (s_side w) m).
 
-(* band edges: outer edges of the first and last channel *)
-Definition band_lo (w : spw) : Q := chan_freq w 0 - inject_Z (s_side w) * (1#2) * chan_width w.
+(* VisibilityDataV4: the window built from the telstate attributes center_freq, bandwidth, n_chans *)
+Definition v4_spw (centre bw : Q) (n : Z) : spw :=
+  spw_init (centre, q_v4_channel_width bw n, n, gen_v4_sideband, None).
+
+(* SPEC: channel k of N is at centre + sideband * (k - N//2) * bandwidth / N *)
+Definition spec_chan_freq (centre bw : Q) (n side k : Z) : Q :=
+  centre + inject_Z side * (inject_Z (k - n / 2) * bw / inject_Z n).
+
+(* edges: outer edges of channel k, of the first and of the last channel *)
+Definition chan_lo (w : spw) (k : Z) : Q := chan_freq w k - inject_Z (s_side w) * (1#2) * chan_width w.
+Definition band_lo (w : spw) : Q := chan_lo w 0.
 Definition band_hi (w : spw) : Q := chan_freq w (s_n w - 1) + inject_Z (s_side w) * (1#2) * chan_width w.
 
 (* ---------------- preselect validation (datasources.py) ---------------- *)
-Definition step_ok (s : option Z) : bool := match s with None => true | Some z => (z =? 1)%Z end.
+Definition optZ_eqb (x y : option Z) : bool :=
+  match x, y with None, None => true | Some a, Some b => (a =? b)%Z | _, _ => false end.
+Definition step_ok (s : option Z) : bool := existsb (optZ_eqb s) preselect_steps.
 Definition preselect_ok (keys : list string) (steps : list (option Z)) : bool :=
   forallb (fun k => mem_string k preselect_keys) keys && forallb step_ok steps.
 
 (* ---------------- slices of lists (unit step, normalised 0 <= a <= b <= n) ---------------- *)
 Definition slice {A} (a b : nat) (l : list A) : list A := firstn (b - a) (skipn a l).
+Definition slice2 {A} (a b c d : nat) (m : list (list A)) : list (list A) := map (slice c d) (slice a b m).
 Fixpoint zrange (start : Z) (n : nat) : list Z :=
   match n with O => [] | S n' => start :: zrange (start + 1) n' end.
 
@@ -102,13 +174,16 @@ Definition to_timing (x : sx) : timing :=
   end.
 Definition to_spw (x : sx) : spw :=
   match x with L [c; b; I n; I s] => mkSpw (to_Q c) (to_Q b) n s | _ => mkSpw 0 1 1 1 end.
-Definition of_spw (w : spw) : sx := L [of_Q (s_centre w); of_Q (s_bw w); I (s_n w); I (s_side w)].
+Definition of_spw (w : spw) : sx :=
+  L [of_Q (s_centre w); of_Q (s_bw w); I (s_n w); I (s_side w); of_Q (chan_width w)].
 
-(* (1 timing a n)     -> (model timestamps (n of them), spec timestamps for dumps a..a+n-1, start, end, time_offset, needs_fix, spec_needs_fix)
-   (2 spw)            -> channel freqs
+(* (1 timing a n)     -> (model timestamps (n of them), spec timestamps for dumps a..a+n-1, start, end, time_offset,
+                          spec start, spec end)
+   (2 spw)            -> (channel freqs, spec channel freqs)
    (3 spw first last) -> () | (subrange spw, its freqs)
    (4 spw m)          -> (rechannelised spw, its freqs, band_lo, band_hi, band_lo orig, band_hi orig)
-   (5 keys steps)     -> preselect_ok *)
+   (5 keys steps)     -> preselect_ok
+   (6 centre bw N c d) -> (v4 spw, its freqs, spec freqs, () | (subrange c d, its freqs)) *)
 Definition wire_17 (x : sx) : sx :=
   match x with
   | L [I 1; tm; I a; I n] =>
@@ -116,9 +191,12 @@ Definition wire_17 (x : sx) : sx :=
       let ks := zrange 0 (Z.to_nat n) in
       L [L (map (fun i => of_Q (model_timestamp tm a i)) ks);
          L (map (fun i => of_Q (spec_timestamp tm (a + i))) ks);
-         of_Q (model_start_time tm a); of_Q (model_end_time tm a n); of_Q (model_time_offset tm a);
-         of_bool (needs_fix tm a); of_bool (spec_needs_fix tm)]
-  | L [I 2; w] => L (map of_Q (freqs_full (to_spw w)))
+         of_Q (model_start_time tm a n); of_Q (model_end_time tm a n); of_Q (model_time_offset tm a);
+         of_Q (spec_timestamp tm a - (1#2) * t_int tm); of_Q (spec_timestamp tm (a + n - 1) + (1#2) * t_int tm)]
+  | L [I 2; w] =>
+      let w := to_spw w in
+      L [L (map of_Q (freqs_full w));
+         L (map (fun k => of_Q (spec_chan_freq (s_centre w) (s_bw w) (s_n w) (s_side w) k)) (zrange 0 (Z.to_nat (s_n w))))]
   | L [I 3; w; I f; I l] =>
       match subrange (to_spw w) f l with
       | Some w' => L [of_spw w'; L (map of_Q (freqs_full w'))]
@@ -128,5 +206,13 @@ Definition wire_17 (x : sx) : sx :=
       let w := to_spw w in let w' := rechannelise w m in
       L [of_spw w'; L (map of_Q (freqs_full w')); of_Q (band_lo w'); of_Q (band_hi w'); of_Q (band_lo w); of_Q (band_hi w)]
   | L [I 5; keys; steps] => of_bool (preselect_ok (to_strings keys) (map to_optZ (to_list steps)))
+  | L [I 6; c; b; I n; I c0; I d0] =>
+      let w := v4_spw (to_Q c) (to_Q b) n in
+      L [of_spw w; L (map of_Q (freqs_full w));
+         L (map (fun k => of_Q (spec_chan_freq (to_Q c) (to_Q b) n 1 k)) (zrange 0 (Z.to_nat n)));
+         match subrange w c0 d0 with
+         | Some w' => L [of_spw w'; L (map of_Q (freqs_full w'))]
+         | None => L []
+         end]
   | _ => sx_err
   end.
